@@ -3,7 +3,7 @@ import itertools, random
 from .. import core, hist, world as W
 from .c01 import handles_ok, fix_disagreements
 
-MODULES = ['DsdVerif.Props.C04', 'DsdVerif.Props.PyDomain', 'DsdVerif.Props.PyDomain2', 'DsdVerif.Props.PyDomain3', 'DsdVerif.Props.PyMembers', 'DsdVerif.Props.PyDomain4', 'DsdVerif.Props.PyMembers2', 'DsdVerif.Props.PyDomain5']
+MODULES = ['DsdVerif.Props.C04', 'DsdVerif.Props.PyDomain', 'DsdVerif.Props.PyDomain2', 'DsdVerif.Props.PyDomain3', 'DsdVerif.Props.PyMembers', 'DsdVerif.Props.PyDomain4', 'DsdVerif.Props.PyMembers2', 'DsdVerif.Props.PyDomain5', 'DsdVerif.Props.PyDomain6']
 GEN_FILES = ['PyExprs', 'PyDomain', 'PySingleton', 'PyMembers', 'PyMembers2']
 THEOREM_NAMES = ['domwf_init', 'domwf_request', 'domwf_drop', 'domwf_invert', 'complement_lengths_agree', 'conflict_raises',
                  'invert_involutive', 'dtype_rule', 'dtype_default_lengths', 'dtype_length_contradiction',
@@ -29,6 +29,8 @@ THEOREMS += ['Dsd.PyDomain4.' + t for t in ['py_identifiers_dtype_consistent', '
 THEOREMS += ['Dsd.PyMembers2.' + t for t in ['py_domain_init_eq', 'py_domain_init_after_identifiers', 'py_domain_init_empty_prefix', 'py_domain_init_default_length']]
 # the branch theorems under the freshness of the temporary identity, one theorem for every request identifiers itself makes, the base case of the fuel induction (the step is open)
 THEOREMS += ['Dsd.PyDomain5.' + t for t in ['py_identifiers_starred_length_F', 'py_identifiers_unstarred_length_F', 'py_identifiers_starred_nolength_F', 'model_identTail_fresh', 'py_identifiers_named', 'py_relatedF_zero']]
+# one level of the nested request unfolded; the sub-case of the induction step in which no object is created (the creation sub-case is open)
+THEOREMS += ['Dsd.PyDomain6.' + t for t in ['py_requestPy_succ', 'py_tail_not_created']]
 ASSUMPTIONS = [
     'DomainS.identifiers is hand-modelled by its net effect (Model/Objects.lean: domainRequest); the temporary complement objects it '
     'creates and drops are modelled separately (Model/DomainFull.lean) and proved to have this net effect (Props/C04Full.lean)',
